@@ -339,12 +339,15 @@ def atom_text(d, hcount, bracket=False):
     return '[' + name + h + c + ']'
 
 
-def bond_sym(g, a, b, rng=None, explicit_single=0.0):
+def bond_sym(g, a, b, rng=None, explicit_single=0.0, implicit_biaryl=0.0):
     o = g.edges[a, b]['order']
     if g.edges[a, b].get('lower'):
         return ''
     low = lambda n: g.nodes[n].get('aromatic') or g.nodes[n].get('lower')
     if o == 1 and low(a) and low(b):
+        # the single bond between two aromatic rings: written '-' or (biphenyl as c1ccccc1c1ccccc1) left implicit
+        if implicit_biaryl and rng is not None and g.nodes[a].get('aromatic') and g.nodes[b].get('aromatic') and rng.random() < implicit_biaryl:
+            return ''
         return '-'
     if o == 1 and rng is not None and rng.random() < explicit_single:
         return '-'
@@ -484,7 +487,7 @@ def render_fragment(rng, g, nodes, desc, start=None, opts=None):
         # ... or after ALL neighbours written as branches: CS(=O)(=O)[$]
         all_br = bool(late) and rng.random() < 0.4
         for i, x in enumerate(ks):
-            bs = bond_sym(g, n, x, rng, opts.get('explicit_single', 0.0))
+            bs = bond_sym(g, n, x, rng, opts.get('explicit_single', 0.0), opts.get('implicit_biaryl', 0.0))
             if i < len(ks) - 1 or all_br:
                 tokens.append(('open',))
                 if bs:
